@@ -309,7 +309,7 @@ def run(pid, tier, replay=None):
             ["TLC, JVM, Go runtime, crypto/* trusted", "SignatureInfo and SignatureValue lengths are taken as observed parameters of the shape (ECDSA signatures vary in length)",
              "field VALUES are compared for equality after the round trip; the oracle speaks about structure and lengths (DESIGN C03 residual)"],
             match=match_c12 if pid == "C12" else None)
-        ev_path = os.path.join(V.VERIF, "evidence", pid + ".json")
+        ev_path = V.evidence_path(pid)
         e = json.load(open(ev_path))
         e["coverage"]["states"] = max(1, g.distinct)
         e["coverage"]["transitions"] = max(1, g.generated)
@@ -332,7 +332,7 @@ def run(pid, tier, replay=None):
             "and 1206 parser inputs over separators/escapes/type markers, and proves NameCmp a total order on it; the real Compare/Equal/IsPrefix/Hash/PrefixHash/Bytes/NameFromBytes/String/NameFromStr "
             "are evaluated on every name, on random / identical / neighbouring / prefix-related pairs, and on every parser input (4 variants each); every observation judged by NameOrder",
             ["TLC, JVM, Go runtime trusted", "hash agreement is checked as 'equal names hash equally' and prefix-hash = hash of prefix (collisions are not a violation)"])
-        ev_path = os.path.join(V.VERIF, "evidence", pid + ".json")
+        ev_path = V.evidence_path(pid)
         e = json.load(open(ev_path))
         e["coverage"]["states"], e["coverage"]["transitions"] = max(1, g.distinct), max(1, g.generated)
         e["coverage"]["model_checking"] = {"NameGen": {"universe": 1118, "total_order_proved_on": "whole universe" if th else "close-pairs subset", "wall_s": round(g.wall, 1)}}
